@@ -694,6 +694,47 @@ fn emit_container(out: &mut Out, rt: &tokio::runtime::Runtime, dir: &Path, conta
 	}
 }
 
+/// PMTiles size boundary (`C17b <delta> <seed> <hex doc>`): a tile set (from `crate::boundary`, regenerated from
+/// delta and seed) whose compressed root directory is `16257 + delta` bytes long, i.e. sits at the byte budget
+/// between the header and the metadata; the document must come back exactly as for every other pmtiles file.
+fn emit_boundary(out: &mut Out, rt: &tokio::runtime::Runtime, dir: &Path, delta: i64, seed: u64, doc: &str) {
+	let line = format!("C17b {delta} {seed} {}", hex(doc.as_bytes()));
+	let Some((set, reached)) = crate::boundary::pmtiles_root_boundary_set(delta, seed) else {
+		out.notes.push(format!("C17b: no boundary set found for delta {delta} seed {seed}"));
+		return;
+	};
+	let Ok(g) = expected_object(doc) else { return };
+	let tj = match catch(|| TileJSON::try_from(doc)) {
+		Ok(Ok(t)) => t,
+		_ => return,
+	};
+	let tiles: Vec<Tile> = set.keys().map(|(z, x, y)| (*z, *x, *y)).collect();
+	let blobs: Vec<(TileCoord3, Blob)> = set.iter().map(|((z, x, y), b)| (TileCoord3::new(*x, *y, *z).unwrap(), Blob::from(b.clone()))).collect();
+	let mut src = MemSource::new("c17b", TileFormat::PNG, TileCompression::Gzip, blobs).with_tilejson(tj);
+	let path = container_path(dir, "b", "pmtiles");
+	out.eval(&line, true);
+	out.count("container_pmtiles_boundary");
+	out.count(&format!("pmtiles_root_delta_{}", reached - crate::boundary::PM_ROOT_BUDGET));
+	let verdict: Option<(&'static str, String)> = match write_container(rt, &mut src, "pmtiles", &path) {
+		Err((what, msg)) => Some((what, msg)),
+		Ok(()) => match read_container(rt, "pmtiles", &path) {
+			Err((what, msg)) => Some((what, msg)),
+			Ok(t) => match catch(|| real_object(&t)) {
+				Err(m) => Some(("panic", format!("as_object: {m}"))),
+				Ok(r) => {
+					let mut narrower = false;
+					container_rule(&g, &r, &tiles, false, &mut narrower)
+				}
+			},
+		},
+	};
+	remove(&path);
+	match verdict {
+		None => out.oracle(true, "", json!(null), json!(null)),
+		Some((what, msg)) => out.oracle(false, &format!("C17 container: pmtiles: {what} (root directory at the size boundary)"), json!({"kind": "container", "container": "pmtiles", "what": what, "boundary": true}), json!({"case": line, "message": trunc(&msg, 300), "root_directory_bytes": reached, "tiles": tiles.len(), "given": obj_text(&g)})),
+	}
+}
+
 // ---------------------------------------------------------------------------------------------
 // served tiles.json
 // ---------------------------------------------------------------------------------------------
@@ -1087,6 +1128,12 @@ pub fn run(args: &Args, out: &mut Out, rng: &mut Rng) {
 			emit_container(out, &rt, &dir, c, comp, &doc, &tiles, true);
 		}
 	}
+	// PMTiles root directory at its byte budget (16257): one set right at it, two inside the 127 bytes above it
+	let deltas: &[i64] = if args.thorough() { &[-1, 0, 1, 2, 64, 126, 127, 128] } else { &[0, 1, 127] };
+	for (k, d) in deltas.iter().enumerate() {
+		let doc = gen_accepted_doc(out, rng);
+		emit_boundary(out, &rt, &dir, *d, 7 + k as u64, &doc);
+	}
 	out.extra.insert("c17io_container_seconds".into(), json!(t0.elapsed().as_secs_f64()));
 
 	// served tiles.json
@@ -1124,6 +1171,10 @@ pub fn replay_line(out: &mut Out, line: &str) {
 	match t.as_slice() {
 		["C17c", container, comp, h, tiles] if CONTAINERS.contains(container) => match (parse_comp(comp), text(h), parse_tiles(tiles)) {
 			(Some(comp), Some(doc), Some(tiles)) => emit_container(out, &rt, &dir, container, comp, &doc, &tiles, false),
+			_ => out.notes.push(format!("unreadable replay line {line}")),
+		},
+		["C17b", delta, seed, h] => match (delta.parse::<i64>(), seed.parse::<u64>(), text(h)) {
+			(Ok(d), Ok(sd), Some(doc)) => emit_boundary(out, &rt, &dir, d, sd, &doc),
 			_ => out.notes.push(format!("unreadable replay line {line}")),
 		},
 		["C17h", container, h, tiles] if CONTAINERS.contains(container) => match (text(h), parse_tiles(tiles)) {
